@@ -30,6 +30,9 @@ class Prov:
             return all(vals) if isinstance(test.op, ast.And) else any(vals)
         if base == "self" and t in self.predicates:
             return self.config[self.predicates[t]]
+        if base == "self" and isinstance(test, ast.Compare) and len(test.ops) == 1 and isinstance(test.ops[0], (ast.Is, ast.Eq)) and isinstance(test.comparators[0], ast.Constant) and test.comparators[0].value is None and src(test.left) + " is not None" in self.predicates:
+            # the other spelling of a registered predicate (`x is None` == not `x is not None`)
+            return not self.config[self.predicates[src(test.left) + " is not None"]]
         if isinstance(test, ast.Compare) and len(test.ops) == 1 and isinstance(test.comparators[0], ast.Constant) and test.comparators[0].value is None:
             v = self.eval(test.left, fn, base, c)
             return (v == "None") if isinstance(test.ops[0], ast.Is) else (v != "None")
